@@ -69,6 +69,17 @@ def brace_affix(rng, path_mode, ext):
     return text, [(gen.ser(t), t) for t in singles]
 
 
+def paren_single(rng):
+    """A single whose text begins with an unescaped, literal `(`: behind the `-` marker (or behind `!` without EXTMATCH) it is an
+    ordinary exclusion body, not an extended group."""
+    mid = tuple(gen.rand_tokens(rng, maxtok=2, depth=0, alpha='ab', kinds=''))
+    tail = tuple(gen.rand_tokens(rng, maxtok=2, depth=0, alpha='ab.', kinds='')) if rng.random() < 0.6 else ()
+    toks = (('lit', '('),) + mid + (('lit', ')'),) + tail
+    if gen.ambiguous_adjacency(toks) or not gen.in_fragment(toks):
+        return None
+    return '(' + gen.ser(mid) + ')' + gen.ser(tail), toks
+
+
 def rand_composite(rng, path_mode, max_inc=4, max_exc=3):
     c = Composite()
     c.path_mode = path_mode
@@ -116,6 +127,10 @@ def rand_composite(rng, path_mode, max_inc=4, max_exc=3):
             c.flags.add('MINUSNEGATE')
             mark = '-'
         for text, pairs, need in exc_groups:
+            if len(pairs) == 1 and not need and (minus or not ext) and rng.random() < 0.25:
+                ps = paren_single(rng)
+                if ps:
+                    text, pairs = ps[0], [ps]
             c.flags |= need
             if 'SPLIT' in need and len(pairs) > 1:
                 # the marker must be on every piece
